@@ -268,11 +268,18 @@ class Ctx:
             if min_K is not None and min_K < K:
                 # frames 0..min_K must be decided; deeper frames are explored in chunks under the time budget and the
                 # depth actually discharged is reported (a timeout there is a stated bound, not a pass and not a failure)
-                ranges = [(0, min_K, True)]
-                lo = min_K + 1
+                first = job.get("first_chunk")   # frames 0..first_chunk in one query (cheap shallow part), then `chunk` frames each
+                ranges = []
+                lo = 0
+                if first is not None:
+                    ranges.append((0, min(first, K), True))
+                    lo = min(first, K) + 1
+                elif chunk >= K + 1:
+                    ranges.append((0, min_K, True))
+                    lo = min_K + 1
                 while lo <= K:
                     hi = min(K, lo + chunk - 1)
-                    ranges.append((lo, hi, False))
+                    ranges.append((lo, hi, hi <= min_K))
                     lo = hi + 1
             else:
                 ranges = [(lo, min(K, lo + chunk - 1), True) for lo in range(0, K + 1, chunk)]
